@@ -103,10 +103,14 @@ func C12(env *Env) {
 			{"pckCrl", pat.Call("pcs.PckCrlURL", caM), part.gc && part.cr},
 			{"rootCaCrl", qeRootDP, part.gc && part.cr},
 		}
-		getterM := pat.Op(flow.OpIte, "", pat.Bin("==", pat.Is(fieldT(opt, "Getter")), pat.Const("nil")),
-			pat.Pred(func(t *flow.Term) bool {
-				return t.Op == flow.OpNew && strings.Contains(t.Name, "verify/trust.RetryHTTPSGetter") && strings.Contains(t.Name, "DefaultHTTPSGetter")
-			}), pat.Is(fieldT(opt, "Getter")))
+		// options.Getter, defaulted only when nil to the getter DefaultHTTPSGetter builds
+		// (a fresh RetryHTTPSGetter allocated in package verify/trust)
+		defGetter := pat.Pred(func(t *flow.Term) bool {
+			return t.Op == flow.OpNew && strings.Contains(t.Name, "verify/trust.RetryHTTPSGetter") && strings.Contains(t.Name, "@verify/trust.")
+		})
+		getterM := pat.OneOf(
+			pat.Op(flow.OpIte, "", pat.Bin("==", pat.Is(fieldT(opt, "Getter")), pat.Const("nil")), defGetter, pat.Is(fieldT(opt, "Getter"))),
+			pat.Op(flow.OpIte, "", pat.Bin("!=", pat.Is(fieldT(opt, "Getter")), pat.Const("nil")), pat.Is(fieldT(opt, "Getter")), defGetter))
 		found := map[string]bool{}
 		for _, s := range sites {
 			matched := ""
